@@ -142,6 +142,8 @@ class Particle:
     @classmethod
     def export(cls, particles: Iterable['Particle']) -> Element:
         """Reconstruct a DMX file with the specified particles."""
+        # We iterate twice, so one-shot iterables need to be stored.
+        particles = list(particles)
         root = Element('', 'DmElement')
         root['particleSystemDefinitions'] = part_list = Attribute.array('', ValueType.ELEMENT)
 
